@@ -6,6 +6,7 @@ use std::panic::{catch_unwind, AssertUnwindSafe};
 
 mod deblock_cases;
 mod util;
+mod yuv_cases;
 
 fn run_line(line: &str) -> String {
     let mut it = line.split_whitespace();
@@ -18,6 +19,7 @@ fn run_line(line: &str) -> String {
         "K" => deblock_cases::kernel(&rest),
         "D" => deblock_cases::image(&rest),
         "J" => deblock_cases::table(),
+        "Y" => yuv_cases::image(&rest),
         _ => format!("bad-op {}", kind),
     }
 }
@@ -37,7 +39,7 @@ fn main() {
         let res = catch_unwind(AssertUnwindSafe(|| run_line(l)));
         let s = match res {
             Ok(s) => s,
-            Err(_) => "PANIC".to_string(),
+            Err(_) => format!("{} PANIC", l.split_whitespace().next().unwrap_or("?")),
         };
         writeln!(out, "{}", s).unwrap();
     }
